@@ -13,36 +13,40 @@ INF = math.inf
 
 
 def norm(op: str, a: F, b: F):
+    """(exact value of the documented formula, sensitivity).  sensitivity is 0.0 when the branch condition of the
+    formula, evaluated in binary64 on the same operands, differs from its exact evaluation (the only legitimate
+    effect of rounding on a branch: a+b or a*b is computed, the operands themselves are compared exactly), else inf"""
+    fa, fb = float(a), float(b)
     if op == "AlgebraicProduct":
         return a * b, INF
     if op == "BoundedDifference":
-        return max(F(0), a + b - 1), abs(a + b - 1)
+        return max(F(0), a + b - 1), INF
     if op == "DrasticProduct":
-        return (min(a, b) if max(a, b) == 1 else F(0)), abs(max(a, b) - 1)
+        return (min(a, b) if max(a, b) == 1 else F(0)), INF
     if op == "EinsteinProduct":
         return a * b / (2 - (a + b - a * b)), INF
     if op == "HamacherProduct":
-        return (a * b / (a + b - a * b) if a + b != 0 else F(0)), abs(a + b)
+        return (a * b / (a + b - a * b) if a + b != 0 else F(0)), (INF if (a + b != 0) == (fa + fb != 0.0) else 0.0)
     if op == "Minimum":
         return min(a, b), INF
     if op == "NilpotentMinimum":
-        return (min(a, b) if a + b > 1 else F(0)), abs(a + b - 1)
+        return (min(a, b) if a + b > 1 else F(0)), (INF if (a + b > 1) == (fa + fb > 1.0) else 0.0)
     if op == "AlgebraicSum":
         return a + b - a * b, INF
     if op == "BoundedSum":
-        return min(F(1), a + b), abs(a + b - 1)
+        return min(F(1), a + b), INF
     if op == "DrasticSum":
-        return (max(a, b) if min(a, b) == 0 else F(1)), abs(min(a, b))
+        return (max(a, b) if min(a, b) == 0 else F(1)), INF
     if op == "EinsteinSum":
         return (a + b) / (1 + a * b), INF
     if op == "HamacherSum":
-        return ((a + b - 2 * a * b) / (1 - a * b) if a * b != 1 else F(1)), abs(a * b - 1)
+        return ((a + b - 2 * a * b) / (1 - a * b) if a * b != 1 else F(1)), (INF if (a * b != 1) == (fa * fb != 1.0) else 0.0)
     if op == "Maximum":
         return max(a, b), INF
     if op == "NilpotentMaximum":
-        return (max(a, b) if a + b < 1 else F(1)), abs(a + b - 1)
+        return (max(a, b) if a + b < 1 else F(1)), (INF if (a + b < 1) == (fa + fb < 1.0) else 0.0)
     if op == "NormalizedSum":
-        return (a + b) / max(F(1), a + b), abs(a + b - 1)
+        return (a + b) / max(F(1), a + b), INF
     if op == "UnboundedSum":
         return a + b, INF
     raise ValueError(op)
